@@ -98,8 +98,13 @@ func genScenario(r *hx.Rng, name string, thorough bool, search bool) scenario {
 		sc.lines = append(sc.lines, "cfg p008 0")
 	}
 	ntx := 2 + r.Intn(5)
+	useReq := r.Chance(1, 3) // transactions carry gate request ids: the header's "fixed" request id is checked by verifyBlock
 	for i := 0; i < ntx; i++ {
-		sc.lines = append(sc.lines, fmt.Sprintf("tx t%d", i))
+		if useReq && r.Chance(2, 3) {
+			sc.lines = append(sc.lines, fmt.Sprintf("tx t%d r%d", i, 1+r.Intn(9)))
+		} else {
+			sc.lines = append(sc.lines, fmt.Sprintf("tx t%d", i))
+		}
 	}
 	maxBlocks := 4 + r.Intn(6)
 	if thorough {
@@ -273,6 +278,8 @@ func genScenario(r *hx.Rng, name string, thorough bool, search bool) scenario {
 		flag := "ok"
 		if r.Chance(1, 25) {
 			flag = "badroot"
+		} else if useReq && r.Chance(1, 10) {
+			flag = "badreq"
 		}
 		n := nb{label: fmt.Sprintf("b%d", i), parent: p, height: h, qnsum: par.qnsum + qn, used: used, depth: par.depth + 1, pv: pv}
 		nodes = append(nodes, n)
@@ -1158,6 +1165,10 @@ func (c *child) run(sc scenario) {
 		case "tx":
 			tx := &types.Transaction{Source: fundedA, Target: "0x42c8c9b13fc0573d18028b3398a887c4297ff646", Type: types.TransactionTypeOperatorEvent,
 				Time: "2024-04-22", Data: f[1], Nonce: uint64(len(c.txs) + 1), ChainId: "9500"}
+			if len(f) > 2 && strings.HasPrefix(f[2], "r") {
+				rq, _ := strconv.ParseUint(f[2][1:], 10, 64)
+				tx.RequestId = rq
+			}
 			tx.Hash = tx.GenHash()
 			c.txs[f[1]] = tx
 			c.txOrder = append(c.txOrder, f[1])
@@ -1189,6 +1200,16 @@ func (c *child) run(sc scenario) {
 			gate.mu.Lock()
 			gate.disabled = false
 			gate.mu.Unlock()
+			if bi.flag == "badreq" {
+				// header carries a request id the transactions do not justify
+				ids := map[string]uint64{}
+				for k, v := range blk.Header.RequestIds {
+					ids[k] = v
+				}
+				ids["fixed"] = ids["fixed"] + 1
+				blk.Header.RequestIds = ids
+				blk.Header.Hash = blk.Header.GenHash()
+			}
 			if bi.flag == "badroot" {
 				bi.goodRoot = blk.Header.StateTree
 				blk.Header.StateTree = common.BytesToHash(common.Sha256(blk.Header.StateTree.Bytes()))
@@ -1210,7 +1231,12 @@ func (c *child) run(sc scenario) {
 			if len(bi.txs) > 0 {
 				txl = strings.Join(bi.txs, ",")
 			}
-			c.emit(fmt.Sprintf("blk %s %s %s %d %d %d %s %s", f[1], hx.Hex(blk.Header.Hash.Bytes()), f[2], height, blk.Header.TotalQN, pv, txl, bi.flag), "ok")
+			var trq []string
+			for _, t := range blk.Transactions {
+				trq = append(trq, strconv.FormatUint(t.RequestId, 10))
+			}
+			c.emit(fmt.Sprintf("blk %s %s %s %d %d %d %s %s %d %s", f[1], hx.Hex(blk.Header.Hash.Bytes()), f[2], height, blk.Header.TotalQN, pv, txl, bi.flag,
+				blk.Header.RequestIds["fixed"], joinOrDash(trq)), "ok")
 		case "pool":
 			tx := *c.txs[f[1]]
 			res, _, _ := c.guarded(false, 0, 0, func() string {
@@ -1384,6 +1410,64 @@ func (c *child) run(sc scenario) {
 	}
 }
 
+// direct correspondence streams of two pure functions on the property's path (verif hook H4c-c05)
+func (c *child) runPure(n int) {
+	hxnode.BootServices("dev")
+	common.LocalChainConfig.Proposal026Block = 1 << 62
+	if err := bootChain(); err != nil {
+		panic(err)
+	}
+	r := hx.NewRng(hx.SeedFromEnv() ^ 0x5eed)
+	hash := func() []byte {
+		b := r.Bytes(32)
+		switch r.Intn(6) {
+		case 0: // leading zero bytes
+			for i := 0; i < 1+r.Intn(4); i++ {
+				b[i] = 0
+			}
+		case 1:
+			b = make([]byte, 32)
+			b[31] = byte(r.Intn(3))
+		}
+		return b
+	}
+	for i := 0; i < n; i++ {
+		pa, pb := int64(r.Pick(0, 1, 2, 500, 1<<40)), int64(r.Pick(0, 1, 2, 500, 1<<40))
+		if r.Chance(1, 3) {
+			pa, pb = int64(r.Intn(1000)), int64(r.Intn(1000))
+		}
+		ha, hb := hash(), hash()
+		if r.Chance(1, 8) {
+			hb = append([]byte{}, ha...)
+		}
+		if r.Chance(1, 3) {
+			pb = pa // prove values tie: the hash decides
+		}
+		x := &types.BlockHeader{ProveValue: big.NewInt(pa), Hash: common.BytesToHash(ha)}
+		y := &types.BlockHeader{ProveValue: big.NewInt(pb), Hash: common.BytesToHash(hb)}
+		c.out.Do(fmt.Sprintf("pv %d %s %d %s", pa, hx.Hex(ha), pb, hx.Hex(hb)), func() string {
+			return strconv.FormatBool(core.VerifC05ChainPvGreatThanRemote(x, y))
+		})
+	}
+	for i := 0; i < n; i++ {
+		last := uint64(r.Pick(0, 0, 1, 5, 9, 1<<40))
+		var txs []*types.Transaction
+		var rs []string
+		for j := r.Intn(6); j > 0; j-- {
+			q := uint64(r.Pick(0, 0, 1, 4, 5, 6, 9, 10, 1<<40, 1<<40+1))
+			txs = append(txs, &types.Transaction{RequestId: q})
+			rs = append(rs, strconv.FormatUint(q, 10))
+		}
+		lm := map[string]uint64{}
+		if last != 0 || r.Bool() {
+			lm["fixed"] = last
+		}
+		c.out.Do(fmt.Sprintf("rid %d %s", last, joinOrDash(rs)), func() string {
+			return strconv.FormatUint(core.VerifC05RequestIds(txs, lm)["fixed"], 10)
+		})
+	}
+}
+
 func copyBlock(b *types.Block) *types.Block {
 	raw, err := types.MarshalBlock(b)
 	if err != nil {
@@ -1422,7 +1506,11 @@ func runChild(a map[string]string) {
 	if !setFaultGate(fgate.hook) && a["fault"] == "1" {
 		panic("fault mode needs a build with -tags c05fault against a repository with hook H2b-c05")
 	}
-	c.run(sc)
+	if a["pure"] == "1" {
+		c.runPure(hx.ArgInt(a, "n", 400))
+	} else {
+		c.run(sc)
+	}
 	out.Close()
 	cr := childResult{Viol: c.viol, Kinds: out.Kinds, Res: out.Results, N: out.N, Fault: c.faultStats}
 	j, _ := json.Marshal(cr)
@@ -1458,7 +1546,10 @@ func main() {
 			}
 		}
 	}
-	if mode == "fault" {
+	if mode == "pure" {
+		scs = []scenario{{name: "pure", lines: []string{}}}
+		a["purechild"] = "1"
+	} else if mode == "fault" {
 		a["faultchild"] = "1"
 		// deterministic family first: a fault in front of every write token of an extension, and of a reorg
 		for k := 0; k < 10; k++ {
@@ -1544,7 +1635,7 @@ func main() {
 				ioutil.WriteFile(scn, []byte(strings.Join(j.sc.lines, "\n")), 0644)
 				cctx, cancel := context.WithTimeout(context.Background(), 120*time.Second)
 				cmd := exec.CommandContext(cctx, self, "child=1", "scn="+scn, "name="+j.sc.name, "ops="+filepath.Join(d, "ops"), "obs="+filepath.Join(d, "obs"),
-					"result="+filepath.Join(d, "result"), "viol="+filepath.Join(d, "viol"), "fault="+a["faultchild"])
+					"result="+filepath.Join(d, "result"), "viol="+filepath.Join(d, "viol"), "fault="+a["faultchild"], "pure="+a["purechild"], "n="+a["n"])
 				cmd.Dir = d
 				cmd.Env = append(os.Environ(), "GOMAXPROCS=2")
 				outb, err := cmd.CombinedOutput()
